@@ -582,6 +582,79 @@ def runState (c : Config) : State → List (Op × Nat) → State
   | s, (op, t) :: rest => runState c (step c s op t).st rest
 
 
+/-! ## Configuration setters called in the MIDDLE of a run
+
+The public setters of the bar may be called at any time, also between two `advance` calls of a
+running bar.  A setter writes nothing; from the next call on the new value is in force - the
+redraw decision of every `set_progress` reads the interval and the redraw frequency configured AT
+THAT MOMENT, every frame is built from the width, the characters and the format configured at
+that moment. -/
+
+inductive Setter where
+  /-- `min_seconds_between_redraws(x)`, `x` in ticks: ignored unless positive; switches the
+  step-period rule to "a tenth of the maximum" -/
+  | minInterval (ticks : Nat)
+  /-- `max_seconds_between_redraws(x)` -/
+  | maxInterval (ticks : Nat)
+  /-- `set_redraw_frequency(f)`: ignored once the frequency is derived from the maximum -/
+  | redrawFreq (f : Nat)
+  | barWidth (w : Nat)
+  | barChar (s : Str)
+  | emptyChar (s : Str)
+  | progressChar (s : Str)
+  /-- `set_format(f)`: also forgets the resolved format (`self._format = None`) -/
+  | format (f : Str)
+  deriving DecidableEq, Repr, Inhabited
+
+def Config.set (c : Config) : Setter → Config
+  | .minInterval ticks => if ticks > 0 then { c with redrawFreq := none, minInterval := ticks } else c
+  | .maxInterval ticks => { c with maxInterval := ticks }
+  | .redrawFreq f => match c.redrawFreq with
+    | some _ => { c with redrawFreq := some (max f 1) }
+    | none => c
+  | .barWidth w => { c with barWidth := w }
+  | .barChar b => { c with barChar := some b }
+  | .emptyChar b => { c with emptyChar := b }
+  | .progressChar b => { c with progressChar := b }
+  | .format f => { c with internalFormat := some f }
+
+/-- what a setter does to the state of the bar: only `set_format` touches it -/
+def State.afterSetter (s : State) : Setter → State
+  | .format _ => { s with format := none }
+  | _ => s
+
+inductive Call where
+  | op (o : Op)
+  | set (x : Setter)
+  deriving DecidableEq, Repr, Inhabited
+
+/-- one public call (operation or setter) at clock reading `t`, under the configuration in force -/
+def stepC (c : Config) (s : State) (call : Call) (t : Nat) : Config × Res :=
+  match call with
+  | .op o => (c, step c s o t)
+  | .set x => (c.set x, ⟨s.afterSetter x, [], none, none⟩)
+
+/-- what happened at one call of a run with setters; `cfg` = the configuration in force when the
+call was made -/
+structure CEvent where
+  cfg : Config
+  call : Call
+  t : Nat
+  pre : State
+  res : Res
+  deriving Repr, Inhabited
+
+/-- a history of operations AND setters, every call with its clock reading -/
+def runC : Config → State → List (Call × Nat) → List CEvent
+  | _, _, [] => []
+  | c, s, (call, t) :: rest =>
+    let r := stepC c s call t
+    ⟨c, call, t, s, r.2⟩ :: runC r.1 r.2.st rest
+
+/-- the event of a run without setters, seen as an event of a run with setters -/
+def Event.lift (c : Config) (e : Event) : CEvent := ⟨c, .op e.op, e.t, e.pre, e.res⟩
+
+
 /-! ## Reading the writes: a one-line terminal and a plain stream -/
 
 /-- one terminal line with a cursor: the cells left of the cursor and the cells from the cursor on -/
@@ -647,5 +720,18 @@ def cleanOpsB (ops : List (Op × Nat)) : Bool := ops.all (fun x => cleanOpB x.1)
 
 /-- no call of the history raised -/
 def noErrB (evs : List Event) : Bool := evs.all (fun e => e.res.err.isNone)
+
+def noErrCB (evs : List CEvent) : Bool := evs.all (fun e => e.res.err.isNone)
+
+/-- the texts passed by the calls of a run with setters are single-line -/
+def cleanCallB : Call → Bool
+  | .op o => cleanOpB o
+  | .set (.format f) => cleanB f
+  | .set (.barChar b) => cleanB b
+  | .set (.emptyChar b) => cleanB b
+  | .set (.progressChar b) => cleanB b
+  | .set _ => true
+
+def cleanCallsB (calls : List (Call × Nat)) : Bool := calls.all (fun x => cleanCallB x.1)
 
 end Clikit.Progress
